@@ -26,7 +26,7 @@ func (c12) endWithCommands(c *core.Ctx) {
 	r := c.R
 	var b strings.Builder
 	b.WriteString("title: Start\n---\n")
-	scenario := []string{"A", "A", "B", "C"}[r.Intn(4)]
+	scenario := []string{"A", "A", "B", "C", "D"}[r.Intn(5)]
 	ind := ""
 	id := 0
 	stmt := func() {
@@ -67,6 +67,16 @@ func (c12) endWithCommands(c *core.Ctx) {
 	var stopCh chan error
 	stopShape := r.Intn(4)
 	switch scenario {
+	case "D":
+		// a pending command in the MIDDLE of a body that reports success by closing its channel: that is a
+		// completion, not an end - and if an end is reported, it is absorbing
+		k.shape = []int{0, 1, 4, 5, 6}[r.Intn(5)]
+		k.fail = false
+		k.closeOnly = true
+		fmt.Fprintf(&b, "%s<<tail t 1.5 true>>\n", ind)
+		stmt()
+		stmt()
+		c.Feature("tail:pending-command-completes-by-closing-its-channel")
 	case "A":
 		fmt.Fprintf(&b, "%s<<tail t 1.5 true>>\n", ind)
 		c.Feature("tail:async-command-is-the-last-statement")
@@ -80,6 +90,15 @@ func (c12) endWithCommands(c *core.Ctx) {
 			id++
 			fmt.Fprintf(&b, "%sC%d <<if %s>>\n", ind, id, conds[r.Intn(len(conds))])
 			stmt()
+		}
+		if r.Bool() {
+			// an option whose condition is not a boolean (a fault): whatever is reported, an end is an end
+			id++
+			fmt.Fprintf(&b, "%s-> buy%d <<if %s>>\n%s    inside\n", ind, id, r.Pick("3", "\"yes\"", "$flag", "0"), ind)
+			id++
+			fmt.Fprintf(&b, "%sL%d {p(%d, %d)}\n", ind, id, id, id)
+			stmt()
+			c.Feature("tail:option-with-a-non-boolean-condition")
 		}
 		c.Feature("tail:plain-lines-with-conditions")
 	}
@@ -106,7 +125,7 @@ func (c12) endWithCommands(c *core.Ctx) {
 	rr.Install(mon.FlowFuncs(log), mon.FlowCmds(log))
 	var gates []func()
 	switch scenario {
-	case "A":
+	case "A", "D":
 		if err := k.register(rr); err != nil {
 			c.Violate("registering a handler of a supported shape failed: "+err.Error(), map[string]any{"shape": c10Shapes[k.shape]})
 			return
